@@ -2,6 +2,7 @@ from __future__ import annotations
 
 import ast
 import enum
+import re
 import sys
 from collections.abc import Callable
 from typing import TYPE_CHECKING, Any, ClassVar, Literal, NoReturn, TypeVar, cast
@@ -603,6 +604,10 @@ class Parser:
 
     @staticmethod
     def _decode_fstring_literal(text: str, raw: bool) -> str:
+        # escapes (with the braces of \N{name}) set aside, a "}" in a literal part must be doubled
+        plain = text if raw else re.sub(r"\\(?:N\{[^{}]*\}|[^{}])", "", text)
+        if "}" in plain.replace("}}", ""):
+            raise SyntaxError("f-string: single '}' is not allowed")
         text = text.replace("{{", "{").replace("}}", "}")
         text = text.replace("\r\n", "\n").replace("\r", "\n")  # newlines are translated as in any other source text
         if raw or "\\" not in text:
